@@ -8,7 +8,8 @@ EXPLANATION = (
     "path::expand and path::home_dir, and of home_dir() in expand, is consumed only by `?` whose error arm returns the error; it is never turned into "
     "a default (ok(), unwrap_or*, unwrap_or_default, let _, a substituting match). Dropping one of them would make an unset variable expand silently and "
     "passes the existing tests, which run with HOME set. Also decided: the other failure exits exist structurally (multiple '~', misplaced '~', empty "
-    "variable name each reach an Err(PathError::..) constructor). NOT decided: the substitution result for all templates and environments.")
+    "variable name each reach an Err(PathError::..) constructor), and the '$' that ends literal text is consumed observably, so that a '$' ending a component "
+    "reaches the empty-name exit (EMPTY-NAME). NOT decided: the substitution result for all templates and environments.")
 
 
 def var_terminators(rep, F, cg):
@@ -43,6 +44,53 @@ def var_terminators(rep, F, cg):
     rep.add(R, 'varterm:expand', 'literal text ends at $; a variable name ends at $ or }', ok, F.bodies[fn]['_file'] if fn in F.bodies else '',
             '' if ok else 'the scanner predicates of expand compare against %s and call %s (expected the constants [[\'$\'], [\'$\', \'}\']] as code points %s and no calls): '
             'variable names are delimited differently' % (got, sorted(set(calls)), want))
+
+
+def _char_consts(B):
+    cs = set()
+    for i, j, s in B.assigns():
+        rv = s['rv']
+        if rv['k'] == 'binop' and rv['op'] in ('Eq', 'Ne'):
+            for o in (rv['l'], rv['r']):
+                if o['k'] == 'const' and o.get('ty') == 'char':
+                    cs.add(int(o.get('int', o.get('sint', -1))))
+    for i in B.normal:
+        t = B.term(i)
+        if t['k'] == 'switch' and t.get('discr_ty') == 'char':
+            cs |= {int(v) for v, tb in t['targets']}
+    return cs
+
+
+def empty_name(rep, F, cg):
+    """`expansion fails rather than guessing for ... an empty variable name`: the empty-name check sits in the block that reads a variable, and that block is
+    entered only when something follows the `$`. Structural necessary condition: the `$` that ends the literal text must be consumed observably. std's
+    Iterator::take_while swallows the element it stops at, so after it a component that ends in `$` cannot be told from one that simply ended, and the failure
+    exit is never reached for it (`expand("/foo/bar$") == Ok("/foo/bar")`)."""
+    from panics import skey_call
+    R = 'EMPTY-NAME'
+    rep.rule(R, "the scanner of expand that ends literal text at '$' (the closure that compares the character with '$' only) is not handed to std's consuming "
+             "Iterator::take_while on the shared character stream, unless the component is separately tested for a trailing '$': the consuming adapter swallows the "
+             "'$' it stops at, a '$' that ends a component then looks like the end of the text and the empty-name failure exit is never reached")
+    fn = 'sys::fs::path::expand'
+    if fn not in F.bodies:
+        rep.add(R, 'emptyname:anchor', '%s exists' % fn, False, detail='anchor missing')
+        return
+    B = cg.body(fn)
+    keys = [skey_call(B, t) for i, t in B.calls()]
+    indep = any(k.startswith(('ends_with(', 'has_suffix(')) and (',36)' in k or "'$'" in k) for k in keys)
+    n = 0
+    for i, t in B.calls():
+        for c in t.get('callable_args') or []:
+            if c not in F.bodies or _char_consts(cg.body(c)) != {36}:
+                continue
+            n += 1
+            callee = t.get('callee') or ''
+            consuming = callee.split('::')[-1] == 'take_while' and 'Iterator' in callee
+            ok = (not consuming) or indep
+            rep.add(R, 'emptyname:expand:literal-scanner=%s' % callee.split('::')[-1], "the '$' that ends literal text is consumed observably", ok, '%s:%d' % (B.file, B.line),
+                    '' if ok else "expand scans literal text with %s, which swallows the '$' it stops at: a component ending in '$' (an empty variable name) "
+                    "skips the variable block and is returned without the '$' instead of failing" % callee)
+    rep.floor(R, "scanners of expand that end literal text at '$'", n, 1)
 
 
 def run(rep, F, ctx):
@@ -88,6 +136,7 @@ def run(rep, F, ctx):
         rep.add('TILDE-COUNT', 'tildecount:expand', 'expand counts every ~ of the whole string and rejects more than one', ok_count and ok_guard, '%s:%d' % (B.file, B.line),
                 '' if (ok_count and ok_guard) else 'expand does not select its home-expansion arm by count(matches(whole path string, \'~\')) > 1 (count found: %s, guard found: %s): a ~ inside a component is not seen' % (ok_count, ok_guard))
     var_terminators(rep, F, cg)
+    empty_name(rep, F, cg)
     import primtable as _pt
     _pt.prim_table(rep, F, cg, engine.load_table('primitives.json'), _pt.GROUPS['C17'])
     import siteguard as _sg
